@@ -46,8 +46,8 @@ Step(e) ==
     [] e.op = "setopt"  -> SetOption(e.v = 1) /\ ok' = ok /\ why' = why
     [] e.op = "load"    ->
          /\ Load(e.force = 1)
-         /\ LET specDec == DecisionsD(st'.rules, DefaultAllows)
-                layered == DecisionsD(FreshPolicyN(fs, dirs, enfnew, nreg), DefaultAllows)
+         /\ LET specDec == DecisionsWith(st'.rules, DefaultAllows)
+                layered == DecisionsWith(FreshPolicyN(fs, dirs, enfnew, nreg), DefaultAllows)
                 c10 == ObsA(e.dec, ToSet(e.roles)) = specDec            \* long-lived enforcer follows the specification
                 c09 == ObsA(e.fresh, ToSet(e.roles)) = layered          \* a fresh enforcer computes the layering sentence
                 eq  == DefaultMode => ObsA(e.dec, ToSet(e.roles)) = ObsA(e.fresh, ToSet(e.roles))       \* C10 itself (default overwrite mode)
